@@ -239,10 +239,13 @@ impl Prop for C03 {
     match t {
       "adjacent" => {
         let (lo, hi) = shard_range(l.len(), shard, nshards);
+        let mut rev = Reverse::new(7);
         for p in lo..hi {
           let (y, m) = l.at(p);
           run_case(env, out, "adjacent", &Case::ints(&[y, m]), &ev);
+          rev.note("adjacent", &Case::ints(&[y, m]));
         }
+        rev.run(env, out, &ev);
         let (ylo, yhi) = shard_range(10000, shard, nshards);
         for y in ylo..yhi {
           run_case(env, out, "year", &Case::ints(&[y as i64]), &ev);
